@@ -319,6 +319,7 @@ def run_worker(args):
     known = load_known()
     table_start = reference_table(include_corpus=False)
     fp_start = module_fingerprint()
+    budget_s = 0.75 * args.get("wall_s", 3000)
     for scen, total in args["work"]:
         done = 0
         dg = {}
@@ -327,7 +328,11 @@ def run_worker(args):
             indices = range(0, min(args.get("det_sample", DET_SAMPLE), total))
         else:
             indices = range(w, total, n)
-        for index in indices:
+        for pos, index in enumerate(indices):
+            if time.time() - t0 > budget_s:
+                # the code under test got so slow that the plan cannot be finished: stop here, say so, never claim the rest
+                out["incomplete"] = out.get("incomplete", 0) + len(indices) - pos
+                break
             spec = prop.spec(scen, index, seed)
             res = run_one(prop, spec)
             done += 1
@@ -445,7 +450,8 @@ def run_check(pid, tier, seed, nworkers):
                 for k, v in dg.items():
                     prim[(scen, k)] = v
         det_checked = 0
-        for r in shadows:
+        incomplete = sum(r.get("incomplete", 0) for r in workers + shadows)
+        for r in ([] if incomplete else shadows):
             for scen, dg in r["digests"].items():
                 for k, v in dg.items():
                     det_checked += 1
@@ -509,6 +515,10 @@ def run_check(pid, tier, seed, nworkers):
         total_runs = sum(merged["runs"].values())
         print("%s %s: %d runs, %d evaluations, %d distinct non-trivial, %d violating runs (%d new), %.1fs, %.0f runs/hour" % (
             pid, tier, total_runs, merged["evaluations"], len(merged["nontrivial"]), nviol_runs, new_viol, wall_s, total_runs / wall_s * 3600))
+        if incomplete:
+            print("NOTE: %d planned runs were not executed: the workers used up three quarters of their wall-clock limit (the code under test became much slower than on the reference tree)" % incomplete)
+            if not new_viol:
+                raise Harness("time budget exhausted before all planned runs were executed, and no violation among those that were")
         if harness_problems and not new_viol:
             raise Harness("nondeterministic replay: " + "; ".join(harness_problems[:3]))
         if harness_problems:
